@@ -258,6 +258,11 @@ func (r *rewriter) run() error {
 	if len(r.errs) > 0 {
 		return fmt.Errorf("rewriter cannot handle:\n  %s", strings.Join(r.errs, "\n  "))
 	}
+	for _, is := range r.file.Imports {
+		if p, _ := strconv.Unquote(is.Path.Value); p == verifxPrefix+"vsched" && (is.Name == nil || is.Name.Name == "vsched") {
+			r.needSch = false
+		}
+	}
 	if r.needSch {
 		astutil.AddNamedImport(r.fset, r.file, "vsched", verifxPrefix+"vsched")
 	}
